@@ -1,11 +1,13 @@
 #!/bin/sh
-# Offline setup: copy go.sum, compile the harness once (warms the Go build cache), parse every specification.
+# Offline setup: copy go.sum, compile the harness packages once (warms the Go build cache), parse every specification.
 set -e
 cd "$(dirname "$0")"
 export GOFLAGS=-mod=mod GOPROXY=off GOSUMDB=off GOTOOLCHAIN=local
 cp /repo/go.sum harness/go.sum
 mkdir -p harness/bin
-(cd harness && go1.26 test -c -tags verif -o bin/drv.test ./drv)
+for pkg in drv cdrv wiredrv; do
+  if [ -d "harness/$pkg" ]; then (cd harness && go1.26 test -c -tags verif -o bin/$pkg.test ./$pkg); fi
+done
 rm -rf harness/bin
 for f in spec/*.tla; do
   (cd spec && tla-sany "$(basename "$f")" >/dev/null 2>&1) || { echo "SANY failed on $f"; exit 1; }
